@@ -160,6 +160,11 @@ def okSection (s : Section) : Bool := okPath s.path && s.rows.all okRow
 
 def okBody (b : List (Bucket × List Section)) : Bool := b.all fun g => g.2.all okSection
 
+/-- The same hygiene stated on the database: paths, taxon names and spans of every record. -/
+def okPrograms (programs : List (Codes × List (Codes × List Span))) : Bool :=
+  programs.all fun pr => okPath pr.1 && pr.2.all fun ts =>
+    okTaxon ts.1 && ts.2.all fun sp => decide (0 ≤ sp.1) && decide (0 ≤ sp.2)
+
 /-- The text `txt` printed for the cost `c` is made of the characters of a float literal and reads back. -/
 def costOKb (readCost : Str → Option Rat) (txt : Str) (c : Rat) : Bool :=
   txt.all costChar && readCost txt == some c
